@@ -85,7 +85,10 @@ def cdc_bench(name, cmd_depth=4, wdata_depth=4, rdata_depth=4, fairness=3, aw=4,
         asm(n, ~pv | (valid & monitors.all_([q == x for q, x in zip(pl, payload)])))
     held(pu.cmd.valid, pu.cmd.ready, [pu.cmd.we, pu.cmd.addr], tu, "user_cmd_held_until_accepted")
     held(pu.wdata.valid, pu.wdata.ready, [pu.wdata.data, pu.wdata.we], tu, "user_wdata_held_until_accepted")
-    asm("user_always_accepts_read_data", pu.rdata.ready)
+    if not bounded_reads:
+        # (the overflow scenario of the known finding is shown with a user that never stalls; everywhere else rdata.ready is free:
+        #  "any back-pressure")
+        asm("user_always_accepts_read_data", pu.rdata.ready)
     # events
     # the watched payload bit of each stream is a symbolic constant over the WHOLE payload (every address, data and enable bit)
     consts = {}
@@ -293,7 +296,8 @@ def run(ctx):
                "(R = fairness: frequency ratios up to (R+1):1 either way, any phase/drift); metastability and intra-bus skew are outside "
                "the model (a MultiReg is two ideal flip-flops; a Gray pointer sampled during a change reads old or new)")
     ctx.assume("producers hold valid/payload until accepted (evaluated at their own clock edges); user side always accepts read "
-               "data; the controller side returns read data only for reads it accepted, as single-cycle offers that do not wait for ready")
+               "data in the 'unbounded_reads' benches and stalls it freely (rdata.ready free at user edges) in all others; the controller side "
+               "returns read data only for reads it accepted, as single-cycle offers that do not wait for ready")
     ctx.assume("reset sequencing of the two domains is not modelled (both start from their reset state)")
     ctx.assume("benches without the 'unbounded_reads' prefix: the controller side offers read data only while the crossing is ready "
                "(otherwise see the known finding on the unbounded benches)")
